@@ -5,6 +5,7 @@ import (
 	"go/ast"
 	"go/token"
 	"path/filepath"
+	"sort"
 	"strconv"
 	"strings"
 )
@@ -88,10 +89,21 @@ func genNumKey(repo string) (string, error) {
 	// level range: for i := LO; i <= HI; i++ in createAbstractNum (literals or named constants)
 	consts := numConsts(p)
 	lo, hi := "", ""
-	if cf := p.funcDecl("Document", "createAbstractNum"); cf != nil {
+	// by use: the loop (in getOrCreateNumbering or a function of the package it calls) whose body fills .Levels
+	for _, cf := range reachFuncs(p, fd, 3, map[string]bool{}) {
 		ast.Inspect(cf, func(n ast.Node) bool {
 			fs, ok := n.(*ast.ForStmt)
 			if !ok {
+				return true
+			}
+			fills := false
+			ast.Inspect(fs.Body, func(m ast.Node) bool {
+				if sel, ok := m.(*ast.SelectorExpr); ok && sel.Sel.Name == "Levels" {
+					fills = true
+				}
+				return true
+			})
+			if !fills {
 				return true
 			}
 			if as, ok := fs.Init.(*ast.AssignStmt); ok && len(as.Rhs) == 1 {
@@ -113,7 +125,7 @@ func genNumKey(repo string) (string, error) {
 		})
 	}
 	if lo == "" || hi == "" {
-		return "", fmt.Errorf("createAbstractNum: level loop `for i := a; i <= b; i++` (or `i < b`) not found")
+		return "", fmt.Errorf("the loop that fills the levels of an abstract numbering definition (`for i := a; i <= b; i++` or `i < b`) not found")
 	}
 	var b strings.Builder
 	b.WriteString("From Coq Require Import List String.\nImport ListNotations.\nOpen Scope string_scope.\n\n")
@@ -122,7 +134,12 @@ func genNumKey(repo string) (string, error) {
 	return b.String(), nil
 }
 
-// genHeadingMap: the `switch styleVal { case "...": return N }` tables of getHeadingLevel.
+// genHeadingMap: getHeadingLevel as a table over the style ids its source can tell apart. The candidates are the
+// string literals of getHeadingLevel, of the functions of the package it calls and of the tables of the package these
+// name, each also followed by 0..10; the level of a candidate is what the function returns for a paragraph with that
+// style id, computed by the evaluator of goeval.go (which refuses what it does not know, so that a function written
+// in a way it cannot follow is reported as untranslatable rather than guessed at). Ids outside the table are covered
+// by the general rule of Model/Lists.v, which the correspondence check compares with the code.
 func genHeadingMap(repo string) (string, error) {
 	p, err := loadPkg(filepath.Join(repo, "pkg/document"))
 	if err != nil {
@@ -132,35 +149,92 @@ func genHeadingMap(repo string) (string, error) {
 	if fd == nil {
 		return "", fmt.Errorf("getHeadingLevel not found")
 	}
-	var rows []string
-	ast.Inspect(fd, func(n ast.Node) bool {
-		sw, ok := n.(*ast.SwitchStmt)
-		if !ok {
-			return true
+	if fd.Type.Params == nil || len(fd.Type.Params.List) != 1 || len(fd.Type.Params.List[0].Names) != 1 || exprString(fd.Type.Params.List[0].Type) != "*Paragraph" {
+		return "", fmt.Errorf("getHeadingLevel does not take one paragraph")
+	}
+	var cands []string
+	seen := map[string]bool{}
+	add := func(c string) {
+		if !seen[c] && len(c) <= 40 {
+			seen[c] = true
+			cands = append(cands, c)
 		}
-		for _, st := range sw.Body.List {
-			cc := st.(*ast.CaseClause)
-			lvl := ""
-			for _, s := range cc.Body {
-				if rs, ok := s.(*ast.ReturnStmt); ok && len(rs.Results) == 1 {
-					if bl, ok := rs.Results[0].(*ast.BasicLit); ok {
-						lvl = bl.Value
+	}
+	var lits []string
+	litSeen := map[string]bool{}
+	collect := func(n ast.Node) {
+		ast.Inspect(n, func(m ast.Node) bool {
+			if bl, ok := m.(*ast.BasicLit); ok && bl.Kind == token.STRING {
+				v := unquote(bl.Value)
+				if !litSeen[v] {
+					litSeen[v] = true
+					lits = append(lits, v)
+				}
+			}
+			return true
+		})
+	}
+	named := map[string]bool{}
+	for _, g := range reachFuncs(p, fd, 3, map[string]bool{}) {
+		collect(g.Body)
+		ast.Inspect(g.Body, func(m ast.Node) bool {
+			if id, ok := m.(*ast.Ident); ok {
+				named[id.Name] = true
+			}
+			return true
+		})
+	}
+	for _, fn := range p.sortedFiles() {
+		for _, d := range p.files[fn].Decls {
+			gd, ok := d.(*ast.GenDecl)
+			if !ok || (gd.Tok != token.VAR && gd.Tok != token.CONST) {
+				continue
+			}
+			for _, sp := range gd.Specs {
+				vs := sp.(*ast.ValueSpec)
+				for i, n := range vs.Names {
+					if named[n.Name] && i < len(vs.Values) {
+						collect(vs.Values[i])
 					}
 				}
 			}
-			for _, e := range cc.List {
-				if bl, ok := e.(*ast.BasicLit); ok && bl.Kind == token.STRING && lvl != "" {
-					rows = append(rows, fmt.Sprintf("(%s, %s)", coqString(unquote(bl.Value)), lvl))
-				}
-			}
 		}
-		return true
-	})
-	if len(rows) == 0 {
-		return "", fmt.Errorf("no style tables found in getHeadingLevel")
 	}
+	for _, l := range lits {
+		add(l)
+	}
+	for _, l := range lits {
+		for d := 0; d <= 10; d++ {
+			add(l + strconv.Itoa(d))
+		}
+	}
+	var rows []string
+	for _, c := range cands {
+		in := &gInterp{p: p}
+		res, err := in.callFunc(fd, []gval{gopaque{path: "paragraph", leaves: map[string]gval{"Val": c}}})
+		if err != nil {
+			return "", fmt.Errorf("getHeadingLevel on %q: %v", c, err)
+		}
+		if len(res) != 1 {
+			return "", fmt.Errorf("getHeadingLevel has %d results", len(res))
+		}
+		lvl, ok := res[0].(int64)
+		if !ok {
+			return "", fmt.Errorf("getHeadingLevel does not return an integer")
+		}
+		if lvl < 0 {
+			return "", fmt.Errorf("getHeadingLevel(%q) is negative", c)
+		}
+		if lvl != 0 {
+			rows = append(rows, fmt.Sprintf("(%s, %d)", coqString(c), lvl))
+		}
+	}
+	if len(rows) == 0 {
+		return "", fmt.Errorf("getHeadingLevel maps none of the style ids its source names to a level")
+	}
+	sort.Strings(rows)
 	var b strings.Builder
 	b.WriteString("From Coq Require Import List String.\nImport ListNotations.\nOpen Scope string_scope.\n\n")
-	fmt.Fprintf(&b, "(* getHeadingLevel: style id -> heading level (switch tables, in source order) *)\nDefinition heading_table : list (string * nat) := [\n  %s\n].\n", strings.Join(rows, ";\n  "))
+	fmt.Fprintf(&b, "(* getHeadingLevel: style id -> heading level, for the ids its source names (evaluated, sorted) *)\nDefinition heading_table : list (string * nat) := [\n  %s\n].\n", strings.Join(rows, ";\n  "))
 	return b.String(), nil
 }
